@@ -70,6 +70,7 @@ func c04SockRun(srv *svc.Server, cid int, seed uint64, streamNo int, mode string
 	pr := core.NewRand(seed, "c04sockpart", uint64(cid))
 	var writes [][]byte
 	pause := false
+	longPause := time.Duration(0)
 	switch mode {
 	case "single-write":
 		writes = [][]byte{stream}
@@ -111,6 +112,18 @@ func c04SockRun(srv *svc.Server, cid int, seed uint64, streamNo int, mode string
 			writes = [][]byte{stream}
 		}
 		pause = true
+	case "long-pause-inside-a-frame":
+		// a frame whose first part and rest arrive 5.6 s apart (a retransmission stall on a mobile link): the bytes of a TCP stream
+		// do not expire, however long the pause between two of them
+		fi := pr.Intn(len(frames))
+		off := 0
+		for _, f := range frames[:fi] {
+			off += len(f)
+		}
+		k := []int{1, 5, len(frames[fi]) / 2, len(frames[fi]) - 2, len(frames[fi]) - 1, 13}[cid%6]
+		k = max(1, min(k, len(frames[fi])-1))
+		writes = [][]byte{stream[:off+k], stream[off+k:]}
+		longPause = 5600 * time.Millisecond
 	default: // random cuts
 		o := 0
 		for o < len(stream) {
@@ -124,10 +137,15 @@ func c04SockRun(srv *svc.Server, cid int, seed uint64, streamNo int, mode string
 		}
 		pause = pr.Bool()
 	}
+	wdone := make(chan struct{})
 	go func() {
+		defer close(wdone)
 		for i, w := range writes {
 			if t.Write(w) != nil {
 				return
+			}
+			if longPause > 0 && i == 0 {
+				time.Sleep(longPause)
 			}
 			if pause && i%3 == 0 {
 				time.Sleep(time.Duration(200+pr.Intn(1500)) * time.Microsecond)
@@ -143,6 +161,11 @@ func c04SockRun(srv *svc.Server, cid int, seed uint64, streamNo int, mode string
 	for len(got) < len(exp) {
 		rx, ok, to := t.Next(1500 * time.Millisecond)
 		if to {
+			select {
+			case <-wdone:
+			default:
+				continue // the sender is still at work (a long pause inside a frame): nothing may be interleaved with its bytes
+			}
 			break
 		}
 		if !ok {
@@ -238,6 +261,21 @@ func c04Socket(c *core.Collector, x *Ctx) {
 			jobs = append(jobs, job{s, m})
 		}
 	}
+	// (a ninth partition for a few streams: 5.6 s of real time between the two parts of one frame; first in the list so that the
+	// wait overlaps with everything else)
+	const longPauseMode = "long-pause-inside-a-frame"
+	nlp := c.N(6, 24)
+	lp := make([]job, 0, nlp+len(jobs))
+	for s := 0; s < nlp; s++ {
+		lp = append(lp, job{s, -1})
+	}
+	jobs = append(lp, jobs...)
+	modeName := func(m int) string {
+		if m < 0 {
+			return longPauseMode
+		}
+		return c04SockModes[m]
+	}
 	var mu sync.Mutex
 	perStream := map[int]int{}
 	core.ParallelFor(len(jobs), 12, func(i int) {
@@ -246,10 +284,10 @@ func c04Socket(c *core.Collector, x *Ctx) {
 			poison(100 + i)
 		}
 		cid := x.Batch*100000 + i
-		viol, incon, n, wit := c04SockRun(srv, cid, c.Seed*131+uint64(x.Batch), j.s, c04SockModes[j.m])
+		viol, incon, n, wit := c04SockRun(srv, cid, c.Seed*131+uint64(x.Batch), j.s, modeName(j.m))
 		c.Evals(int64(n))
 		c.Count("socket_stream_partitions", 1)
-		c.Count("socket_mode_"+c04SockModes[j.m], 1)
+		c.Count("socket_mode_"+modeName(j.m), 1)
 		c.NonTrivial(core.HashString(fmt.Sprintf("c04sock/%d/%d/%d/%d", c.Seed, x.Batch, j.s, j.m)))
 		if incon {
 			c.Inconclusive()
@@ -257,13 +295,13 @@ func c04Socket(c *core.Collector, x *Ctx) {
 		for _, v := range viol {
 			c.Violate(v[0], v[1], wit)
 		}
-		if len(viol) == 0 && !incon {
+		if len(viol) == 0 && !incon && j.m >= 0 {
 			mu.Lock()
 			perStream[j.s]++
 			mu.Unlock()
 		}
 		if i%40 == 0 {
-			c.Sample(map[string]any{"stream": j.s, "mode": c04SockModes[j.m], "frames": n})
+			c.Sample(map[string]any{"stream": j.s, "mode": modeName(j.m), "frames": n})
 		}
 	})
 	full := 0
